@@ -56,10 +56,6 @@ M = [
     ("malloc-abc", "pixman/pixman-utils.c", "pixman_malloc_abc", "a * b >= INT32_MAX / c", "a * b > INT32_MAX / c", 0),
     ("malloc-abpc", "pixman/pixman-utils.c", "pixman_malloc_ab_plus_c", "(a * b) > INT32_MAX - c", "(a * b) >= INT32_MAX - c", 0),
     ("color-shift", "pixman/pixman.c", "color_to_uint32", "color->red >> 8 << 16", "color->red >> 8 << 15", 0),
-    ("pixel-float", "pixman/pixman.c", "color_to_pixel", "== PIXMAN_TYPE_RGBA_FLOAT", "== PIXMAN_TYPE_RGBA", 0),
-    ("pixel-list", "pixman/pixman.c", "color_to_pixel", "format == PIXMAN_a8           ||", "format == PIXMAN_a4           ||", 0),
-    ("pixel-abgr", "pixman/pixman.c", "color_to_pixel", "((c & 0x00ff0000) >> 16) |", "((c & 0x00ff0000) >>  8) |", 0),
-    ("pixel-a1", "pixman/pixman.c", "color_to_pixel", "c = c >> 31;", "c = c >> 30;", 0),
     ("hash-shift", "pixman/pixman-glyph.c", "hash", "key >> 12", "key >> 13", 0),
     # ---- pixman-combine32.c
     ("mask_ca-eq", "pixman/pixman-combine32.c", "combine_mask_ca", "if (a == ~0)", "if (a != ~0)", 0),
@@ -93,56 +89,6 @@ M = [
     ("xor_ca-not", "pixman/pixman-combine32.c", "combine_xor_ca", "ad = ~m;", "ad = m;", 0),
     ("add_ca-swap", "pixman/pixman-combine32.c", "combine_add_ca", "UN8x4_ADD_UN8x4 (d, s);", "UN8x4_ADD_UN8x4 (s, d);", 0),
     ("multiply_ca-not", "pixman/pixman-combine32.c", "combine_multiply_ca", "(r, ~m, s, dest_ia)", "(r, m, s, dest_ia)", 0),
-    # ---- pixman-image.c: compute_image_info
-    ("info-id-flags", "pixman/pixman-image.c", "compute_image_info", "FAST_PATH_Y_UNIT_ZERO\t\t|", "FAST_PATH_SCALE_TRANSFORM\t\t|", 0),
-    ("info-affine", "pixman/pixman-image.c", "compute_image_info", "matrix[2][2] == pixman_fixed_1)", "matrix[2][2] >= pixman_fixed_1)", 0),
-    ("info-rot180", "pixman/pixman-image.c", "compute_image_info", "matrix[1][1] == -pixman_fixed_1)", "matrix[1][1] == pixman_fixed_1)", 0),
-    ("info-xunit", "pixman/pixman-image.c", "compute_image_info", "matrix[0][0] > 0)", "matrix[0][0] >= 0)", 0),
-    ("info-filter-case", "pixman/pixman-image.c", "compute_image_info", "case PIXMAN_FILTER_GOOD:", "case PIXMAN_FILTER_CONVOLUTION + 10:", 0),
-    ("info-reduce-odd", "pixman/pixman-image.c", "compute_image_info", "% 2) == 1)", "% 2) == 0)", 0),
-    ("info-magic", "pixman/pixman-image.c", "compute_image_info", "pixman_int_to_fixed (30000)", "pixman_int_to_fixed (30001)", 0),
-    ("info-repeat-pad", "pixman/pixman-image.c", "compute_image_info", "FAST_PATH_NO_REFLECT_REPEAT\t\t|\n\t    FAST_PATH_NO_NONE_REPEAT", "FAST_PATH_NO_PAD_REPEAT\t\t|\n\t    FAST_PATH_NO_NONE_REPEAT", 0),
-    ("info-solid-alpha", "pixman/pixman-image.c", "compute_image_info", "image->solid.color.alpha == 0xffff", "image->solid.color.alpha >= 0xff00", 0),
-    ("info-1x1", "pixman/pixman-image.c", "compute_image_info", "image->bits.height == 1\t&&", "image->bits.height <= 1\t&&", 0),
-    ("info-empty", "pixman/pixman-image.c", "compute_image_info", "image->bits.width <= 0 ||", "image->bits.width < 0 ||", 0),
-    ("info-samples-opaque", "pixman/pixman-image.c", "compute_image_info", "!= PIXMAN_TYPE_GRAY", "!= PIXMAN_TYPE_A", 0),
-    ("info-accessors", "pixman/pixman-image.c", "compute_image_info", "flags &= ~FAST_PATH_NO_ACCESSORS;", "flags &= ~FAST_PATH_NARROW_FORMAT;", 0),
-    ("info-radial-break", "pixman/pixman-image.c", "compute_image_info", "if (image->radial.a >= 0)\n\t    break;", "if (image->radial.a >= 0)\n\t    ;", 0),
-    ("info-stop-alpha", "pixman/pixman-image.c", "compute_image_info", "color.alpha != 0xffff)", "color.alpha == 0xffff)", 0),
-    ("info-stop-loop", "pixman/pixman-image.c", "compute_image_info", "i < image->gradient.n_stops", "i < image->gradient.n_stops - 1", 0),
-    ("info-alpha-map", "pixman/pixman-image.c", "compute_image_info", "image->type != BITS)", "image->type == BITS)", 0),
-    ("info-final-clear", "pixman/pixman-image.c", "compute_image_info", "flags &= ~(FAST_PATH_IS_OPAQUE | FAST_PATH_SAMPLES_OPAQUE);", "flags &= ~(FAST_PATH_IS_OPAQUE);", 0),
-    ("info-field-type", "pixman/pixman-private.h", None, "pixman_repeat_t             repeat;", "int                         repeat;", 0),
-    # ---- pixman.c: compute_transformed_extents, analyze_extent
-    ("cte-half", "pixman/pixman.c", "compute_transformed_extents", "pixman_int_to_fixed (extents->x2) - pixman_fixed_1 / 2", "pixman_int_to_fixed (extents->x2) + pixman_fixed_1 / 2", 0),
-    ("cte-corner", "pixman/pixman.c", "compute_transformed_extents", "(i & 0x02)? y1 : y2", "(i & 0x02)? y2 : y1", 0),
-    ("cte-min", "pixman/pixman.c", "compute_transformed_extents", "if (ty < ty1)", "if (ty <= ty1)", 0),
-    ("cte-max", "pixman/pixman.c", "compute_transformed_extents", "if (tx > tx2)\n\t    tx2 = tx;", "if (tx > tx2)\n\t    tx2 = ty;", 0),
-    ("cte-count", "pixman/pixman.c", "compute_transformed_extents", "i < 4", "i < 3", 0),
-    ("cte-init", "pixman/pixman.c", "compute_transformed_extents", "tx2 = ty2 = INT64_MIN", "tx2 = ty2 = INT64_MAX", 0),
-    ("ae-16bit", "pixman/pixman.c", "analyze_extent", "!IS_16BIT (extents->x2 + 1)", "!IS_16BIT (extents->x2)", 0),
-    ("ae-maxsize", "pixman/pixman.c", "analyze_extent", "image->bits.width >= 0x7fff", "image->bits.width > 0x7fff", 0),
-    ("ae-empty", "pixman/pixman.c", "analyze_extent", "image->common.repeat != PIXMAN_REPEAT_NONE)\n\t    return FALSE;", "image->common.repeat == PIXMAN_REPEAT_NONE)\n\t    return FALSE;", 0),
-    ("ae-id-cover", "pixman/pixman.c", "analyze_extent", "extents->x2 <= image->bits.width &&", "extents->x2 < image->bits.width &&", 0),
-    ("ae-id-flag", "pixman/pixman.c", "analyze_extent", "*flags |= FAST_PATH_SAMPLES_COVER_CLIP_NEAREST;\n\t    return TRUE;", "*flags |= FAST_PATH_SAMPLES_COVER_CLIP_BILINEAR;\n\t    return TRUE;", 0),
-    ("ae-conv-off", "pixman/pixman.c", "analyze_extent", "((params[0] - pixman_fixed_1) >> 1)", "((params[0] + pixman_fixed_1) >> 1)", 0),
-    ("ae-bilinear-w", "pixman/pixman.c", "analyze_extent", "width = pixman_fixed_1;", "width = pixman_fixed_1 / 2;", 0),
-    ("ae-nearest-off", "pixman/pixman.c", "analyze_extent", "x_off = - pixman_fixed_e;", "x_off = 0;", 0),
-    ("ae-filter-case", "pixman/pixman.c", "analyze_extent", "case PIXMAN_FILTER_BEST:", "case PIXMAN_FILTER_BEST + 20:", 0),
-    ("ae-cover-nearest", "pixman/pixman.c", "analyze_extent", "pixman_fixed_to_int (transformed.x2 - pixman_fixed_e) < image->bits.width", "pixman_fixed_to_int (transformed.x2 - pixman_fixed_e) <= image->bits.width", 0),
-    ("ae-cover-bilinear", "pixman/pixman.c", "analyze_extent", "pixman_fixed_to_int (transformed.y1 - pixman_fixed_1 / 2) >= 0", "pixman_fixed_to_int (transformed.y1 - pixman_fixed_1 / 2) > 0", 0),
-    ("ae-expand", "pixman/pixman.c", "analyze_extent", "exp_extents.y2 += 1;", "exp_extents.y2 += 2;", 0),
-    ("ae-range", "pixman/pixman.c", "analyze_extent", "transformed.x2 + x_off + 8 * pixman_fixed_e + width", "transformed.x2 + x_off + 8 * pixman_fixed_e", 0),
-    ("ae-second-call", "pixman/pixman.c", "analyze_extent", "(transform, &exp_extents, &transformed)", "(transform, extents, &transformed)", 0),
-    # ---- pixman-glyph.c: counter tests
-    ("glyph-thaw-zero", "pixman/pixman-glyph.c", "pixman_glyph_cache_thaw", "--cache->freeze_count == 0", "--cache->freeze_count <= 0", 0),
-    ("glyph-thaw-high", "pixman/pixman-glyph.c", "pixman_glyph_cache_thaw", "cache->n_tombstones > N_GLYPHS_HIGH_WATER)\n    {", "cache->n_tombstones >= N_GLYPHS_HIGH_WATER)\n    {", 0),
-    ("glyph-thaw-dump", "pixman/pixman-glyph.c", "pixman_glyph_cache_thaw", "if (cache->n_tombstones > N_GLYPHS_HIGH_WATER)", "if (cache->n_glyphs > N_GLYPHS_HIGH_WATER)", 0),
-    ("glyph-thaw-low", "pixman/pixman-glyph.c", "pixman_glyph_cache_thaw", "cache->n_glyphs > N_GLYPHS_LOW_WATER", "cache->n_glyphs >= N_GLYPHS_LOW_WATER", 0),
-    ("glyph-insert-frozen", "pixman/pixman-glyph.c", "pixman_glyph_cache_insert", "cache->freeze_count > 0", "cache->freeze_count >= 0", 0),
-    ("glyph-insert-full", "pixman/pixman-glyph.c", "pixman_glyph_cache_insert", ">= HASH_SIZE - 1)", ">= HASH_SIZE)", 0),
-    ("glyph-macro-high", "pixman/pixman-glyph.c", None, "#define N_GLYPHS_HIGH_WATER  (16384)", "#define N_GLYPHS_HIGH_WATER  (16385)", 0),
-    ("glyph-new-test", "pixman/pixman-glyph.c", "pixman_glyph_cache_thaw", "    if (--cache->freeze_count", "    if (!cache) return;\n    if (--cache->freeze_count", 0),
     # ---- fail closed: constructs outside the accepted subset
     ("unsupported-goto", "pixman/pixman-matrix.c", "fixed_112_16_to_fixed_48_16", "*clampflag = TRUE;", "*clampflag = TRUE; goto out;", 0),
     ("unsupported-loop", "pixman/pixman-trap.c", "pixman_edge_step", "e->x += n * e->stepx;", "while (n > 3) n--; e->x += n * e->stepx;", 0),
